@@ -25,7 +25,7 @@ class CropMachine:
     NAME = "crp"
 
     def __init__(self, ctx, kinds=None, max_n=40, farmer_roles=None, max_batches=None,
-                 world_cfg=None, allow_cases=True, ext_choice=True):
+                 world_cfg=None, allow_cases=True, ext_choice=True, name_choice=False):
         import xyzpy  # noqa - after interpose.install()
 
         self.ctx = ctx
@@ -40,6 +40,12 @@ class CropMachine:
         cfg.update(world_cfg or {})
         self.w = ctx.world(cfg)
         self.root = self.w.root
+        if name_choice:
+            # a crop may be called anything a directory may be called - also what glob
+            # would read as a pattern
+            self.NAME = t.weighted([("crp", 3), ("run[1]", 1), ("v2*", 1), ("what?", 1)], "crop-name")
+            if self.NAME != "crp":
+                ctx.t("crop name", self.NAME)
         self.location = os.path.join(self.root, ".xyz-" + self.NAME)
         simexec.bind(t, ctx.stats, default={
             "boundary": t.pick(["process", "thread"], "ex-boundary")})
@@ -544,7 +550,7 @@ def corrupt_bytes(t, good, nbatch):
 def run_c08(ctx):
     """reported progress == batches that really finished, over histories"""
     deep = ctx.params.get("tier") == "thorough"
-    m = CropMachine(ctx, max_n=24, max_batches=8)
+    m = CropMachine(ctx, max_n=24, max_batches=8, name_choice=True)
     t = ctx.tape
     m.sow()
     model = ProgressModel(m)
